@@ -339,7 +339,7 @@ pub fn run(ctx: &Ctx, replay: Option<&serde_json::Value>) {
     }
     ctx.set_rule("(optional TokenPlan with first/third-party blocks, key scopes naming earlier and later blocks) x AuthorizerAst x stage in {before run, after authorize, after a query, after a run that hit the iteration limit} x form in {struct, raw, base64}; AuthorizerBuilder snapshot; save() -> AuthorizerPolicies -> Authorizer::from; oracle: restore succeeds, structural view (facts per origin, rules, checks, policies, limits, iterations) equal, authorize() and query/query_all on probes equal; non-trivial = token with a third-party block, or stage other than before-run; distinct = hash(case)");
     ctx.assume("max_time within u64 nanoseconds (wire format limit)");
-    let cases = ctx.tier.pick(40_000, 1_600_000);
+    let cases = ctx.tier.pick(120_000, 1_600_000);
     let cfg = GenCfg {
         max_facts: 4,
         max_rules: 2,
